@@ -543,3 +543,95 @@ pub fn run_backlog_vs_shutdown(cfg: &ScenCfg, out: &mut RunOut) {
     out.nontrivial = Some((cfg.variant as u64) << 40 | (n as u64) << 8 | dec_idx as u64 | (chunk as u64) << 60);
     out.sample = Some(json!({"scenario": "shutdown queued ahead of a request backlog", "variant": cfg.variant, "backlog": n}));
 }
+
+/// A client whose peer has stopped reading: the request cannot be written completely.
+/// The request must not stay pending forever, and disable / shutdown / dropping every
+/// handle must still end the connection or the task (C10, C13, C07).
+pub fn run_client_blocked_write(cfg: &ScenCfg, out: &mut RunOut) {
+    use super::client::{spawn_cmd, start_tcp_client, submit, Style};
+    use crate::model::client::{MState, Outcome};
+    use crate::model::pdu::Req;
+    let (dec_idx, decode) = pick_decode(&cfg.decode);
+    let chunk = chance(1, 2);
+    let sched = chance(1, 2);
+    kernel::with(|w| {
+        w.cfg.sched_random = sched;
+        w.cfg.select_random = sched;
+        w.cfg.chunk_reads = chunk;
+        w.cfg.short_writes = chunk;
+    });
+    let addr: SocketAddr = "10.0.0.9:502".parse().unwrap();
+    net::stub_listen(addr);
+    let opts = rodbus::ClientOptions::default().decode_level(decode).max_queued_requests(4);
+    let mut rig = start_tcp_client(addr, (100 * MS, 100 * MS), opts);
+    spawn_cmd(rig.channel.as_ref().unwrap(), 0, 0);
+    kernel::settle();
+    let peer = match net::stub_accept(addr) {
+        Some(p) => p,
+        None => {
+            out.violate("C13", "no_connection_established", "enabled channel did not connect".into());
+            return;
+        }
+    };
+    let window = 1 + choose(100) as usize;
+    peer.set_capacity(window);
+    let timeout = [10 * MS, 100 * MS, 1000 * MS][choose(3) as usize];
+    let nregs = 60 + choose(64) as usize;
+    let req = Req::WriteRegs { start: 0, values: (0..nregs as u16).collect() };
+    submit(rig.channel.as_ref().unwrap(), Style::Future, 0, &req, 1, timeout, &rig.comps);
+    kernel::settle();
+    kernel::count("fault_peer_stall");
+    // nothing is read for a long time
+    kernel::advance(timeout * 3 + 50 * MS);
+    let desc = format!("tcp client, peer window {} bytes and the peer never reads, request of {} bytes with time-out {} ms", window, 13 + 2 * nregs, timeout / MS);
+    let what = choose(4);
+    let ch = rig.channel.clone().unwrap();
+    match what {
+        0 => spawn_cmd(&ch, 3, 0),
+        1 => spawn_cmd(&ch, 1, 0),
+        2 => {
+            drop(ch);
+            rig.channel = None;
+        }
+        _ => {}
+    }
+    kernel::advance(timeout * 3 + 2_000 * MS);
+    let comps = rig.comps.lock().unwrap().clone();
+    let states: Vec<MState> = rig.states.lock().unwrap().iter().map(|s| s.1).collect();
+    if comps.is_empty() {
+        let key = "client_write_blocked_by_stalled_peer_never_ends";
+        if !out.known("C10", key) {
+            out.violate("C10", "never_completed/blocked_write", format!("{}: the request is still pending {} ms after it was submitted (control action {}; listener {:?})", desc, (kernel::now_ns()) / MS, what, states));
+        }
+    } else if comps.len() > 1 {
+        out.violate("C10", "completed_twice", format!("{}: completions {:?}", desc, comps));
+    } else if matches!(comps[0].2, Outcome::Ok(_)) {
+        out.violate("C04", "success_without_reply", format!("{}: the request succeeded although no reply was ever sent", desc));
+    }
+    match what {
+        0 | 2 => {
+            if !rig.task.is_finished() {
+                let key = "client_write_blocked_by_stalled_peer_never_ends";
+                if !out.known("C13", key) {
+                    out.violate("C13", "shutdown_not_honoured/blocked_write", format!("{}: {} did not end the task (listener {:?})", desc, if what == 0 { "shutdown()" } else { "dropping every handle" }, states));
+                    out.violate("C07", "shutdown_not_honoured/blocked_write", format!("{}: the task cannot be shut down", desc));
+                }
+            }
+        }
+        1 => {
+            if states.last() != Some(&MState::Disabled) || !peer.remote_closed() {
+                let key = "client_write_blocked_by_stalled_peer_never_ends";
+                if !out.known("C13", key) {
+                    out.violate("C13", "disable_not_honoured/blocked_write", format!("{}: disable() did not close the connection (listener {:?}, closed by client: {})", desc, states, peer.remote_closed()));
+                }
+            }
+        }
+        _ => {}
+    }
+    out.probe("client_blocked_write");
+    out.ops_checked = 1;
+    out.nontrivial = Some(dec_idx as u64 | (window as u64) << 8 | (timeout / MS) << 20 | (what as u64) << 40 | (nregs as u64) << 44);
+    out.sample = Some(json!({"scenario": "client blocked in a write (peer stopped reading)", "window": window, "timeout_ms": timeout / MS, "control": what}));
+    rig.task.abort();
+    kernel::settle();
+}
